@@ -78,10 +78,10 @@ impl Check for C25 {
         tier.pick(1600, 100_000)
     }
     fn rule(&self) -> String {
-        "case (even) = a seeded multi-replica history of text edits interleaved with mark/unmark calls (3 names, overlapping ranges, all four expand settings, null values, concurrent marks, deletes of marked text and of anchor neighbours, blocks) and merges; on every replica, the merged document, its reload and at up to 3 historical head sets: marks(), get_marks(i) at sampled positions, the marks of spans() must agree with each other, marks_at(current heads) (walked path) must equal marks() (indexed path), and all must equal the marking computed by the independent interpreter (highest-id active mark per name at each position; null = unmarked). case (odd) = boundary growth: on a fresh text one mark with a known ExpandMark over [a,b); text is then inserted exactly at a and exactly at b (same replica, another replica + merge) and must be covered iff expand-before / expand-after; boundaries that coincide with another same-name mark or whose neighbouring character was deleted are skipped and counted. Non-trivial = ≥2 marks of one text or a judged boundary insert; distinct by (mark layout, text).".into()
+        "case (even) = a seeded multi-replica history of text edits interleaved with mark/unmark calls (3 names, overlapping ranges, all four expand settings, null values, concurrent marks, deletes of marked text and of anchor neighbours, blocks) and merges; on every replica, the merged document, its reload and at up to 3 historical head sets: marks(), get_marks(i) at sampled positions, the marks of spans() must agree with each other, marks_at(current heads) (walked path) must equal marks() (indexed path), and all must equal the marking computed by the independent interpreter (highest-id active mark per name at each position; null = unmarked). case (odd) = boundary growth: on a fresh text one mark with a known ExpandMark over [a,b); text is then inserted exactly at a and exactly at b (same replica, another replica + merge) and must be covered iff expand-before / expand-after; on a non-expanding side the neighbouring character beyond the boundary is deleted in half of the cases (optionally carrying a mark of another name that thereby collapses) — inserted text must still not be covered; on an expanding side a deleted neighbour makes the outcome ambiguous and is not generated. History cases additionally plant a nested-marks motif (inner X, covering Y, newer X that outlives the inner one). Non-trivial = ≥2 marks of one text or a judged boundary insert; distinct by (mark layout, text).".into()
     }
     fn required_counters(&self) -> Vec<&'static str> {
-        vec!["texts_compared_with_ref", "texts_with_2plus_marks", "marks_at_vs_marks", "historical_mark_comparisons", "boundary_inserts_judged", "boundary_expand_before", "boundary_expand_after", "boundary_expand_none", "boundary_expand_both"]
+        vec!["texts_compared_with_ref", "texts_with_2plus_marks", "marks_at_vs_marks", "historical_mark_comparisons", "boundary_inserts_judged", "boundary_expand_before", "boundary_expand_after", "boundary_expand_none", "boundary_expand_both", "nested_mark_motifs", "boundary_neighbour_deleted", "boundary_collapsed_neighbour_mark"]
     }
     fn run_case(&self, cx: &mut Ctx, case: u64, rng: &mut Rng) {
         let enc = enc_for(rng);
@@ -92,7 +92,41 @@ impl Check for C25 {
         let prof = Profile { lists: false, counters: false, nested: false, keys: 1, exotic: false, bulk: false, ..Profile::contention() };
         let mut w = World::new(rng, n, enc, prof);
         w.verbose = cx.verbose;
-        w.run(rng, rng.clone().range(10, cx.tier.pick(70, 200)));
+        let steps = rng.range(10, cx.tier.pick(70, 200));
+        for _ in 0..steps / 2 {
+            w.step(rng);
+        }
+        if rng.chance(60) {
+            // nested marks motif on the shared text: an inner mark of name X, a covering mark of
+            // another name, then a newer X mark that starts before the inner one and outlives it —
+            // the inner X ends while the newer X (and the other name) are still open
+            cx.count("nested_mark_motifs");
+            let r = rng.below(n);
+            let t = w.gs.objs[0].0.clone();
+            let b = amv::gen::GenState::boundaries(&w.docs[r], &t);
+            if b.len() >= 6 {
+                let k = b.len() - 1;
+                let i = rng.range(2, k - 2);
+                let j = rng.range(i + 1, k - 1);
+                let lo = rng.range(0, i - 1);
+                let names = [("link", "it"), ("bold", "link"), ("it", "bold")];
+                let (x, y) = *rng.pick(&names);
+                let ex = |rng: &mut Rng| *rng.pick(&[ExpandMark::Before, ExpandMark::After, ExpandMark::Both, ExpandMark::None]);
+                let d = &mut w.docs[r];
+                let _ = d.mark(&t, Mark::new(x.into(), "v1", b[i], b[j]), ex(rng));
+                let _ = d.mark(&t, Mark::new(y.into(), true, b[0], b[k]), ex(rng));
+                let _ = d.mark(&t, Mark::new(x.into(), "v2", b[lo], b[k]), ex(rng));
+                w.logln(format!("R{r}: nested marks motif {x}[{}..{}) {y}[{}..{}) {x}[{}..{})", b[i], b[j], b[0], b[k], b[lo], b[k]));
+                w.commit(r);
+            }
+        }
+        for _ in steps / 2..steps {
+            w.step(rng);
+        }
+        for r in 0..n {
+            w.commit(r);
+        }
+        w.collect();
         let log = w.log.clone();
         let all = w.ledger.clone();
         let topo = w.topo_changes();
@@ -180,6 +214,38 @@ fn boundary_case(cx: &mut Ctx, rng: &mut Rng, enc: automerge::TextEncoding) {
     }
     let remote = rng.chance(50);
     let at_end = rng.chance(50);
+    // On a non-expanding side the anchor belongs to the marked character itself, so the characters on
+    // the other side of the boundary may be deleted (with or without a collapsed mark of another name
+    // on them) without changing the answer: text inserted there is never covered. (On an expanding
+    // side the anchor belongs to the neighbour and deleting it makes the outcome ambiguous: not generated.)
+    let non_expanding_side = if at_end { !ex.after() } else { !ex.before() };
+    if non_expanding_side && rng.chance(50) {
+        let (lo, hi) = if at_end { (end, b[(j + 1).min(base.len())]) } else { (b[i - 1], start) };
+        if hi > lo {
+            cx.count("boundary_neighbour_deleted");
+            if rng.chance(60) {
+                let ex2 = *rng.pick(&[ExpandMark::Before, ExpandMark::Both, ExpandMark::After, ExpandMark::None]);
+                let _ = d.mark(&t, Mark::new("em".into(), true, lo, hi), ex2);
+                cx.count("boundary_collapsed_neighbour_mark");
+            }
+            d.commit();
+            let _ = d.splice_text(&t, lo, (hi - lo) as isize, "");
+            d.commit();
+            // the deleted neighbour was before the mark: everything shifts left
+            if !at_end {
+                let w0 = hi - lo;
+                return boundary_finish(cx, rng, enc, d, t, base.to_vec(), b.iter().map(|x| if *x >= hi { x - w0 } else { *x }).collect(), Some(i - 1), start - w0, end - w0, ex, exname, remote, at_end);
+            }
+            let w0 = hi - lo;
+            return boundary_finish(cx, rng, enc, d, t, base.to_vec(), b.iter().enumerate().map(|(k, x)| if k > j { x - w0 } else { *x }).collect(), Some(j), start, end, ex, exname, remote, at_end);
+        }
+    }
+    boundary_finish(cx, rng, enc, d, t, base.to_vec(), b, None, start, end, ex, exname, remote, at_end)
+}
+
+#[allow(clippy::too_many_arguments)]
+fn boundary_finish(cx: &mut Ctx, rng: &mut Rng, enc: automerge::TextEncoding, mut d: AutoCommit, t: automerge::ObjId, base: Vec<&str>, b: Vec<usize>, deleted_elem: Option<usize>, start: usize, end: usize, ex: ExpandMark, exname: &str, remote: bool, at_end: bool) {
+    let _ = rng;
     let ins = "ZZ";
     let w = enc_width(enc, ins);
     let mut editor = if remote { d.fork().with_actor(amv::gen::actor(1)) } else { d.clone() };
@@ -213,6 +279,9 @@ fn boundary_case(cx: &mut Ctx, rng: &mut Rng, enc: automerge::TextEncoding) {
     // the rest of the mark is unchanged: original characters keep their marking
     let shift = |p: usize| if p >= pos { p + w } else { p };
     for k in 0..base.len() {
+        if deleted_elem == Some(k) {
+            continue;
+        }
         let was = b[k] >= start && b[k] < end;
         let now = covered(&fin, &t, shift(b[k]), "bold");
         if was != now {
